@@ -268,6 +268,17 @@ func vfC03GenRespFor(rt *rapid.T, thorough bool, status int) vfC03Resp {
 		}
 		p.E2E = append(p.E2E, [2]string{k, rapid.SampledFrom(vals).Draw(rt, "rval")})
 	}
+	// realistic media types (some make intermediaries behave differently: event streams, gRPC, multipart)
+	if p.Status != 304 && rapid.Bool().Draw(rt, "typed-response") {
+		has := false
+		for _, kv := range p.E2E {
+			has = has || kv[0] == "Content-Type"
+		}
+		if !has {
+			p.E2E = append(p.E2E, [2]string{"Content-Type", rapid.SampledFrom([]string{"text/plain", "application/json", "application/octet-stream", "text/event-stream",
+				"text/event-stream; charset=utf-8", "Text/Event-Stream", "text/html", "application/grpc", "multipart/form-data; boundary=vfb"}).Draw(rt, "media-type")})
+		}
+	}
 	if p.Status >= 300 && p.Status < 400 && p.Status != 304 {
 		p.E2E = append(p.E2E, [2]string{"Location", rapid.SampledFrom([]string{"/next", "http://elsewhere.test/x?y=1", "../up"}).Draw(rt, "location")})
 	}
